@@ -700,6 +700,12 @@ func (c *RaftCluster) processRegionHeartbeat(region *core.RegionInfo) error {
 				storeMap[p.GetStoreId()] = struct{}{}
 			}
 		}
+		// The displaced regions left the cache as well: their stores lost a region.
+		for _, item := range overlaps {
+			for _, p := range item.GetPeers() {
+				storeMap[p.GetStoreId()] = struct{}{}
+			}
+		}
 		for key := range storeMap {
 			c.updateStoreStatusLocked(key)
 		}
